@@ -4,7 +4,7 @@
 cd /verif || exit 2
 out=seeded/RESULTS.txt; : > $out
 trap 'git -C /repo checkout -- . ; git -C /repo clean -fdq' EXIT
-for d in seeded/SB-*; do
+for d in seeded/SB*-C*; do
   id=$(basename $d)
   chk=$(python3 -c "import json;m=json.load(open('$d/meta.json'));print((m['detected_by'] or {}).get('check') or m['property'])")
   tier=$(python3 -c "import json;m=json.load(open('$d/meta.json'));print((m['detected_by'] or {}).get('tier') or 'quick')")
